@@ -132,6 +132,7 @@ def _names_for(slot, rot):
         fields = DICT_VALUED[cls]
         out.append(f"{name}.{fields[rot % len(fields)]}")
         out.append(f"{name}.{fields[(rot + 1) % len(fields)]}")
+        out.append(f"{name}.no_such_field")
     if slot.ind.candles:
         helpers = sorted(slot.ind.candles[-1].sub_indicators)
         if helpers:
